@@ -147,6 +147,10 @@ def grid():
                 wrap('cow', seq('slice', e)), seq('vec', seq('vec', e)), seq('vec', arr(2, e))]
         if key_ok(e):
             out += [seq('indexset', e), mapk('indexmap', e, P('u8'))]
+    # the slice path (Vec, the two halves of a VecDeque, arrays) over every primitive: a bulk-copy specialisation for
+    # integer slices would touch exactly these
+    for n in PRIMS:
+        out += [seq('vec', P(n)), seq('deque', P(n)), arr(3, P(n))]
     # values of one-byte types next to the keys of the maps above
     for e in (P('i8'), P('bool'), P('nzi8')):
         out += [mapk('hashmap', P('u8'), e), mapk('btreemap', P('i8'), e)]
